@@ -532,6 +532,7 @@ class WhooshPatches(object):
         self.saved = None
         self.async_tids = []
         self.on_async = on_async      # fn(asyncwriter, tid): called synchronously when the helper thread is adopted
+        self.index_sleeps = 0         # retries of FileIndex.reader() (calls of whoosh.index.sleep)
 
     def __enter__(self):
         import whoosh.index as wi
@@ -542,8 +543,12 @@ class WhooshPatches(object):
         self.saved = (fl.time, wi.sleep, ww.time, ww.AsyncWriter.start, ww.AsyncWriter.join)
         fl.time = proxy
         ww.time = proxy
-        wi.sleep = proxy.sleep
         patches = self
+
+        def index_sleep(dt):
+            patches.index_sleeps += 1
+            proxy.sleep(dt)
+        wi.sleep = index_sleep
 
         def start(aw):
             if s._cur() is None:
